@@ -324,6 +324,36 @@ impl<'a> Ix<'a> {
         }
         false
     }
+    /// an accepted tell not yet taken, or an accepted stop marker not yet consumed, at `pos` (SIM only: log order is exact)
+    fn queued_for_sure(&self, a: usize, pos: usize) -> bool {
+        if !self.sim() {
+            return false;
+        }
+        let x = &self.actors[a];
+        let c = x.c().unwrap_or(usize::MAX);
+        if c < pos {
+            return false;
+        }
+        for op in x.msgs.iter() {
+            let o = &self.ops[op];
+            if o.accepted_tell() && o.end.as_ref().unwrap().0 < pos {
+                let handled = self.henter.get(&o.uid).map(|h| h[0] < pos).unwrap_or(false);
+                if !handled {
+                    return true;
+                }
+            }
+        }
+        for op in x.stops.iter() {
+            let o = &self.ops[op];
+            if let Some((e, Res::Ok(_), _)) = &o.end {
+                // a stop that returned while the mailbox was open queued a marker
+                if *e < pos && *e < c && x.ended_pos().map(|p| p > pos).unwrap_or(true) {
+                    return true;
+                }
+            }
+        }
+        false
+    }
     /// message ops to `a` that are certainly still inside the system at `pos`: started, not closed,
     /// or accepted tells not yet taken
     fn pending_work(&self, a: usize, pos: usize) -> bool {
@@ -539,6 +569,15 @@ fn c03(ix: &Ix, f: &mut Findings) {
                         Some(o.actor),
                         format!("{:?} uid {} returned Ok({:?}) but the handler for that request logged {:?}", o.kind, o.uid, v, other.map(|x| (&x.1, x.0 < *epos))),
                     ),
+                }
+            }
+            Res::Send | Res::Receive | Res::Timeout if o.kind == OpKind::AskJoin || (o.mty == 'J' && o.kind == OpKind::Ask) => {
+                // the handler produced its JoinHandle and the asker was still waiting for it: the result must be the task's output
+                if let Some((hp, _, _)) = ix.hexit.get(&o.uid) {
+                    if hp < epos {
+                        f.o("C03.ask_join");
+                        f.v("C03.ask_join", Some(o.actor), format!("ask_join uid {} returned {:?} although the handler had returned its JoinHandle (task outcome {:?})", o.uid, res, ix.jointask.get(&o.uid)));
+                    }
                 }
             }
             Res::Join(panic) => {
@@ -961,6 +1000,24 @@ fn c07(ix: &Ix, f: &mut Findings) {
             || x.stops.iter().any(|k| ix.ops[k].s < sp)
             || x.run_err().map(|p| p < sp).unwrap_or(false)
             || x.first_hook_panic().map(|p| p < sp).unwrap_or(false);
+        {
+            let done_pos = x
+                .stop_exit
+                .first()
+                .map(|s| s.0)
+                .into_iter()
+                .chain(x.first_hook_panic())
+                .chain(x.start_exit.filter(|s| s.1 != Out::Ok).map(|s| s.0))
+                .min();
+            if let Some(dp) = done_pos {
+                if dp < sp {
+                    f.o("C07.resolves");
+                    if !ended {
+                        f.v("C07.resolves", Some(a), format!("actor {a}: its last hook finished (or panicked) at log position {dp} but at the quiescent instant {} ms (log position {sp}) its JoinHandle has still not resolved", ix.log[sp].t));
+                    }
+                }
+            }
+        }
         if *model >= 1 && !cause_before {
             // negative side: never ends on its own
             f.o("C07.stays");
@@ -1266,6 +1323,11 @@ fn c11(ix: &Ix, f: &mut Findings) {
             }
             K::RefOp { actor, what: "upgrade-none", model } => {
                 f.o("C11.upgrade");
+                let ended = ix.actors[*actor].ended_pos().map(|p| p < i).unwrap_or(false);
+                if !ended && ix.queued_for_sure(*actor, i) {
+                    f.o("C11.upgrade_queued");
+                    f.v("C11.upgrade", Some(*actor), format!("ActorWeak::upgrade returned None for actor {actor} at log position {i} although an accepted message / stop request is still queued and the actor is running"));
+                }
                 if *model >= 1 {
                     f.v("C11.upgrade", Some(*actor), format!("ActorWeak::upgrade returned None for actor {actor} although the harness holds {model} strong handle(s) (log position {i})"));
                 }
@@ -1294,6 +1356,12 @@ fn c11(ix: &Ix, f: &mut Findings) {
                     }
                     if !*weak_alive && !phase.starts_with("client") {
                         f.v("C11.upgrade", Some(a), format!("ActorWeak::is_alive() is false for actor {a} at {i} although {model} strong handle(s) exist"));
+                    }
+                }
+                if !ended && ix.queued_for_sure(a, i) {
+                    f.o("C11.upgrade_queued");
+                    if !*upgrade {
+                        f.v("C11.upgrade", Some(a), format!("upgrade() is None for actor {a} at log position {i} although an accepted message / stop request is still queued and the actor is running"));
                     }
                 }
                 if *model == 0 && ended && ix.sim() && !phase.starts_with("client") && !ix.pending_work(a, i) {
